@@ -95,8 +95,16 @@ Fixpoint steps_report (url_of : pystr -> url_info) (ds : list dgram) (n : N)
   match steps, obs_l with
   | st :: steps', ob :: obs' =>
       (if step_in_domain ds st then
-         (if c_roundtrip url_of ds st ob then [] else [(1, n)]) ++
-         (if step_kf ds st then [(100, n)] else [])
+         if step_kf ds st then
+           (* known finding D27, identified by what fails and how: a built datagram with a NUL inside a value is refused
+              by the receiver with InvalidHeader.  Exactly that outcome is reported as clause 2 (the finding's clause)
+              together with the guard; any other way of failing the round trip on such a step stays clause 1 and is
+              not covered by the finding *)
+           (100, n) :: match ob with
+                       | DErr EInvalidHeader => [(2, n)]
+                       | _ => if c_roundtrip url_of ds st ob then [] else [(1, n)]
+                       end
+         else (if c_roundtrip url_of ds st ob then [] else [(1, n)])
        else []) ++ steps_report url_of ds (N.succ n) steps' obs'
   | _, _ => []
   end.
